@@ -251,12 +251,20 @@ fn write_maybe_rpx_dimension(
 }
 
 fn parse_rules(input: &mut StepParser, ss: &mut StyleSheetTransformer) {
+    // `@import` rules are legal as long as only `@import` and `@charset` rules precede them
     let mut at_file_start = true;
     while !input.is_exhausted() {
+        let keeps_file_start = match input.peek() {
+            Ok(peek) => match &*peek {
+                Token::AtKeyword(x) => matches!(&**x, "import" | "charset"),
+                _ => false,
+            },
+            Err(_) => false,
+        };
         if !parse_at_rule(input, ss, at_file_start) {
             parse_qualified_rule(input, ss);
         }
-        at_file_start = false;
+        at_file_start = at_file_start && keeps_file_start;
     }
 }
 
